@@ -844,6 +844,16 @@ def synthetic_specs(v):
         ("Range", ["start", "limit", "delta"], {"start": T(I64), "limit": T(I64), "delta": T(I64)}, {},
          {"start": np.array(1, dtype=np.int64), "limit": np.array(9, dtype=np.int64), "delta": np.array(2, dtype=np.int64)}),
     ]
+    # constants of element types that only newer opsets know (float8 since 19, int4/uint4 since 21): Constant of an older module must
+    # be refused like ONNX refuses the node, a newer one accepts it
+    try:
+        import ml_dtypes
+        from onnx import numpy_helper as _nh
+        for dtn in ("float8_e4m3fn", "float8_e5m2", "int4", "uint4"):
+            arr = np.array([1, 2, 3]).astype(getattr(ml_dtypes, dtn))
+            items.append(("Constant", [], {}, {"value": _nh.from_array(arr, "v")}, {}))
+    except Exception:  # noqa: BLE001
+        pass
     # a node for which ONNX inference invents more than ten symbolic dimensions (unk__0 .. unk__11): all of them are unknown
     items.append(("Split", ["input", "split"], {"input": T(F, "N", 4), "split": T(I64, 12)}, {"axis": 0}, {}, [f"out{k}" for k in range(12)]))
     items.append(("Split", ["input", "split"], {"input": T(F, 4, "M"), "split": T(I64, 13)}, {"axis": 1}, {}, [f"out{k}" for k in range(13)]))
